@@ -528,7 +528,9 @@ func (c *FnCtx) call(ins ssa.Instruction, cc *ssa.CallCommon, val ssa.Value) {
 	if c.spec != nil {
 		// "before callee assert ..." applies at every call of callee; "before callee#k assert ..." only at its k-th call site
 		hs := append([]*Clause{}, c.spec.Hints[ci.name]...)
-		hs = append(hs, c.spec.Hints[fmt.Sprintf("%s#%d", ci.name, len(c.callRes[ci.name]))]...)
+		nGeneric := len(hs)
+		siteNo := len(c.callRes[ci.name])
+		hs = append(hs, c.spec.Hints[fmt.Sprintf("%s#%d", ci.name, siteNo)]...)
 		for k, h := range hs {
 			// a fact the contract asks to be established here (proved, then available as a lemma)
 			env := c.fnEnv(c.st, c.entry, false)
@@ -553,7 +555,12 @@ func (c *FnCtx) call(ins ssa.Instruction, cc *ssa.CallCommon, val ssa.Value) {
 			if len(txt) > 40 {
 				txt = txt[:40]
 			}
-			o := c.oblig(fmt.Sprintf("%s/hint:%s#%d:%s", c.name, ci.name, k+1, txt), "hint", c.g.posStr(pos), false)
+			label := fmt.Sprintf("#%d", k+1)
+			if k >= nGeneric && siteNo > 0 {
+				// site-specific hints carry their site so that two sites with the same call text stay apart
+				label = fmt.Sprintf("@%d#%d", siteNo, k-nGeneric+1)
+			}
+			o := c.oblig(fmt.Sprintf("%s/hint:%s%s:%s", c.name, ci.name, label, txt), "hint", c.g.posStr(pos), false)
 			o.Desc = h.Text
 			o.Tags = h.Tags
 			c.assertG(o, c.mustClause(h, env), c.mustGoal(h, env))
@@ -589,6 +596,11 @@ func (c *FnCtx) call(ins ssa.Instruction, cc *ssa.CallCommon, val ssa.Value) {
 	}
 	for i, rt := range rtypes {
 		c.assume(c.tyInv(results[i], rt))
+	}
+	if cl, ok := ins.(*ssa.Call); ok && len(results) == 1 {
+		if T, ok := c.g.privateObject(cl); ok {
+			c.private = append(c.private, privObj{results[0], T})
+		}
 	}
 	c.callRes[ci.name] = append(c.callRes[ci.name], callSiteRes{results, rtypes, c.snapshot()})
 	// copy-out
